@@ -62,6 +62,20 @@ def Spec.step (sp : Spec) : Op → Spec
 
 def spec (h : List Op) : Spec := h.foldl Spec.step ⟨[], []⟩
 
+/-- histories in which the only recording steps are `derive_proc(orig, new, K)` with `orig` already
+    declared and `new` not yet declared — what exo itself produces as long as `unsafe_assert_eq` is
+    not used.  The recorded steps then form a forest. -/
+def ForestFrom : Spec → List Op → Prop
+  | _, [] => True
+  | sp, .decl p :: h => ForestFrom (sp.step (.decl p)) h
+  | sp, .derive o n K :: h => o ∈ sp.decl ∧ n ∉ sp.decl ∧ ForestFrom (sp.step (.derive o n K)) h
+  | _, .assertEqv _ _ _ :: _ => False
+  | sp, .check _ _ _ :: h => ForestFrom sp h
+  | sp, .strictest _ _ :: h => ForestFrom sp h
+  | sp, .repr _ :: h => ForestFrom sp h
+
+def Forest (h : List Op) : Prop := ForestFrom ⟨[], []⟩ h
+
 /-- procedures declared by a history -/
 def declared (h : List Op) (p : Proc) : Prop := p ∈ (spec h).decl
 /-- recorded steps of a history -/
